@@ -32,6 +32,7 @@ HARNESSES = [
     {"fn": "h_text", "cases": TEXT, "quick_cases": ["w:3", "lead"], "timeout": {"quick": 120, "thorough": 600}},
     {"fn": "h_json", "cases": ["j%d" % i for i in range(len(JSONS))], "quick_cases": ["j0", "j3", "j5", "j7", "j10"],
      "timeout": {"quick": 90, "thorough": 300}},
+    {"fn": "h_final_text", "cases": ["key", "value", "textline"], "timeout": {"quick": 120, "thorough": 400}},
     {"fn": "h_lossless", "cases": LOSSLESS, "quick_cases": ["UD:L17:p15", "XX:L5:p3", "CBOR:L16:p14", "ED:L1:p0"],
      "timeout": {"quick": 120, "thorough": 400}},
 ]
@@ -231,6 +232,45 @@ def h_json() -> bool:
         conds += [list(out.keys()) == base + ["Data"], "Data" in out and out["Data"] == val
                   and type(out["Data"]) is type(val)]
     return verdict(sym_all(conds), obs={"out": out})
+
+
+def h_final_text() -> bool:
+    """
+    post: _
+    """
+    # end to end through the real json module and the real column alignment: the built-in JSON value / text line is
+    # still there, as encoded, in the text the tool finally emits (two characters symbolic over quote, colon,
+    # backslash and a letter, resolved by solver-decided forks before the json C boundary)
+    alph = '":' + chr(92) + "a"
+    c = sym_str("c", 2, alph)
+    mid = None
+    for a1 in alph:                      # one solver-resolved fork per pair; the text is concrete afterwards
+        for a2 in alph:
+            if mid is None and sym_all([ord(c[0]) == ord(a1), ord(c[1]) == ord(a2)]):
+                mid = a1 + a2
+    if CASE == "key":
+        val = {"disk 3.5" + mid + "slot": "ok", "plain": 1}
+        sect = pb.UD(realjson.dumps(val).encode(), sub=1, comp=0x2000)
+    elif CASE == "value":
+        val = {"where": "bay 2" + mid + "rear", "list": ["x" + mid + "y", "z"]}
+        sect = pb.UD(realjson.dumps(val).encode(), sub=1, comp=0x2000)
+    else:
+        val = ["width 19" + mid + "ok", "second line"]
+        sect = pb.UD(("\n".join(val)).encode(), sub=3, comp=0x2000)
+    pel = pb.PEL(sect)
+    cfg = Config()
+    cfg.allow_plugins = False
+    try:
+        eid, text = peltool.parsePEL(DataStream(pel, byte_order="big", is_signed=False), cfg, False)
+        doc = realjson.loads(text)
+    except Exception as ex:
+        return verdict(False, obs={"exception": repr(ex)})
+    ud = doc.get("User Data 0") or doc.get("User Data") or {}
+    if CASE == "textline":
+        conds = [ud.get("Data") == val]
+    else:
+        conds = [ud.get(k) == v for k, v in val.items()]
+    return verdict(sym_all(conds), obs={"ud": ud})
 
 
 def h_lossless() -> bool:
